@@ -624,6 +624,28 @@ def c07_check(case, prog):
         if _cwords(xu) != _cwords(xe):
             return {"kind": "comments-changed", "block": bi, "before": [t for t in xu if t not in xe][:5] or xu[:8],
                     "after": [t for t in xe if t not in xu][:5] or xe[:8], "diffs": [["block %d" % bi, "comments"]]}
+    # every cell of the edited write lists the same particles in its IMP parameters (MCNP needs an importance per
+    # particle of MODE in every cell): an edit of ONE cell's importance that drops a particle from ANOTHER cell's
+    # card is not local
+    def imp_particles(cards):
+        out = []
+        for c in cards:
+            toks = spec.tokens(c.text, cell_geometry=True)
+            parts = set()
+            for k in _params(toks[_param_start(toks):]):
+                if k.lstrip("*").startswith("IMP:"):
+                    parts |= set(k.split(":", 1)[1].split(","))
+            out.append((c, parts))
+        return out
+    pl_u = imp_particles(bu[0])
+    all_u = set().union(*[p for _, p in pl_u]) if pl_u else set()
+    complete_u = all(not p or p == all_u for _, p in pl_u)       # (a shrunk or odd input may be incomplete itself)
+    plists = imp_particles(be[0]) if complete_u else []
+    allp = set().union(*[p for _, p in plists]) if plists else set()
+    for c, parts in plists:
+        if parts and parts != allp:
+            return {"kind": "parameter-lost", "before": sorted(allp), "after": c.text, "tokens": sorted(allp - parts),
+                    "diffs": [["block 0", _first(c), "importance particles"]]}
     for bi in range(3):
         cu_list = list(enumerate(bu[bi]))
         ce_list = list(be[bi])
